@@ -1064,6 +1064,23 @@ def extract_function(repo, spec, cfg, rw=None):
     if 'ret' in spec:
         ret = spec['ret']
     body_src = text[fn['body_start']:fn['body_end'] + 1]
+    if spec.get('fragment'):
+        # R16: a contiguous statement sequence of a function too large to extract: from the unique match of `start` up to (excluding) the first
+        # match of `end` after it; it must begin at a statement boundary and be brace balanced; the locals it uses become the given C parameters
+        fr = spec['fragment']
+        ms = list(re.finditer(fr['start'], body_src))
+        if len(ms) != 1:
+            raise ExtractError('%s: fragment start %r matched %d times' % (spec['name'], fr['start'], len(ms)))
+        me = re.search(fr['end'], body_src[ms[0].start():])
+        if not me:
+            raise ExtractError('%s: fragment end %r not found' % (spec['name'], fr['end']))
+        prev = body_src[:ms[0].start()].rstrip()
+        frag = body_src[ms[0].start():ms[0].start() + me.start()]
+        if prev[-1] not in ';{}' or frag.count('{') != frag.count('}'):
+            raise ExtractError('%s: fragment is not a balanced statement sequence' % spec['name'])
+        nl_before = body_src[:ms[0].start()].count('\n')
+        body_src = '{' + '\n' * nl_before + frag + '}'
+        rw.fire('R16')
     for pat, repl, cnt in spec.get('pre_subs', []):
         body_src, n = re.subn(pat, lambda m_: (repl(m_) if callable(repl) else repl) + '\n' * m_.group(0).count('\n'), body_src, flags=re.S)
         lo_, hi_ = cnt if isinstance(cnt, tuple) else (cnt, cnt)
